@@ -436,8 +436,8 @@ pub fn def() -> PropDef {
         assumptions: &["matching is compared only at quiescent points (all subscription messages sent so far have been processed)", "subscribers accept every write (their pipes never answer Pending on writes), so nothing may be dropped"],
         strata: vec![
             Stratum { name: "hist_enum", quick: 2 * NHIST4, thorough: 2 * NHIST4, exhaustive: (true, true), run: hist_enum, what: "all 7382 histories <= 4 for PUB and for XPUB, one subscriber" },
-            Stratum { name: "hist_concurrent", quick: 60_000, thorough: 1_500_000, exhaustive: (false, false), run: hist_concurrent, what: "2..5 subscribers joining and subscribing concurrently with continuous publishing; final state judged" },
-            Stratum { name: "hist_random", quick: 100_000, thorough: 1_500_000, exhaustive: (false, false), run: hist_random, what: "1..3 subscribers, longer histories, random transport" },
+            Stratum { name: "hist_concurrent", quick: 60_000, thorough: (1_500_000) * 3, exhaustive: (false, false), run: hist_concurrent, what: "2..5 subscribers joining and subscribing concurrently with continuous publishing; final state judged" },
+            Stratum { name: "hist_random", quick: 100_000, thorough: (1_500_000) * 3, exhaustive: (false, false), run: hist_random, what: "1..3 subscribers, longer histories, random transport" },
         ],
     }
 }
